@@ -114,6 +114,9 @@ class Env:
                 lab = EL(ET(t), bool(c), bool(d))
                 self.label_of[tok] = lab
                 self.token_of_label[lab] = tok
+        for v, a, z in sorted(consts.get("Geom0", ())):
+            self.obj[v].address = self.to_addr(a)
+            self.obj[v].size = z
         for a in consts.get("Attach0", []):
             c, p = a
             if self.kind[c] == "mod":
@@ -134,7 +137,16 @@ class Env:
 
     # ---- identities -----------------------------------------------------
     def uuid(self, n):
-        return uuidlib.uuid5(NS, n)
+        """every node has a fixed UUID; one node of the universe carries the nil UUID and one the all-ones UUID
+        (any 16 bytes are a legal UUID for a node, in memory and in a file)"""
+        if self._boundary is None:
+            self._boundary = {}
+            for val, cands in ((uuidlib.UUID(int=0), ("d1", "y1", "s1")), (uuidlib.UUID(int=(1 << 128) - 1), ("p1", "c1", "m1"))):
+                for c in cands:
+                    if c in self.kind and c not in self._boundary:
+                        self._boundary[c] = val
+                        break
+        return self._boundary[n] if n in self._boundary else uuidlib.uuid5(NS, n)
 
     def _set(self, n, o):
         old = self.obj.get(n)
@@ -299,7 +311,8 @@ class Env:
     # ---- executing one spec operation ---------------------------------------
     def step(self, op):
         """Returns the observed result (spec vocabulary) or {'exc': class name}."""
-        self.history.append({k: v for k, v in op.items() if k not in ("res", "alts", "branches", "msg")})
+        self.history.append({k: v for k, v in op.items()
+                             if k not in ("res", "alts", "branches") and (k != "msg" or op["name"] == "readmsg")})
         try:
             r = self._do(op)
         except (Unprojectable, NoBinding):
@@ -371,6 +384,8 @@ class Env:
         if name == "ctor.interval":
             bi = self.g.ByteInterval(size=op["z"], contents=bytes(op["bs"]))
             return {"size": bi.size, "bytes": list(bi.contents), "isize": bi.initialized_size}
+        if name == "readmsg":
+            return self._do_readmsg(op)
         if name == "lookup":
             if self.lookup_hook is None:
                 raise NoBinding("harness has no binding for op 'lookup' here")
@@ -382,6 +397,7 @@ class Env:
         raise NoBinding("harness has no binding for op %r" % name)
 
     _flipstate = 0
+    _boundary = None
     lookup_hook = None
 
     def _flip(self):
@@ -686,6 +702,37 @@ class Env:
                 for k, e in o.symbolic_expressions.items():
                     out[(self.nid(o), k)] = self.nid(e)
         return out
+
+    def _do_readmsg(self, op):
+        """the reader alone: the specification's message written by an independent writer (generated classes
+        only; orders shuffled, stray fields), loaded, identity of references checked, and the loaded IR's own
+        re-save compared with the message field by field.  The universe's objects are not replaced."""
+        import random
+        from . import protomsg
+        from gtirb.proto import IR_pb2
+        mapper = protomsg.Mapper(self, SCHEMA)
+        self._rng = getattr(self, "_rng", None) or random.Random(12345)
+        im = mapper.build_proto(op["msg"], self._rng, vary=True)
+        ir3 = self.g.IR.load_protobuf_file(io.BytesIO(protomsg.file_bytes(im)))   # an exception is the observation
+        want = protomsg.canon_msg(op["msg"])
+        if [mapper.nid(m.uuid.bytes) for m in ir3.modules] != want["module_order"]:
+            return {"exc": "ReaderDisagreesWithSchemaMapping", "msg": "module order"}
+        bad = protomsg.check_identity(self.g, ir3)
+        if bad:
+            return {"exc": "ReferenceIsACopy", "msg": bad[:3]}
+        buf = io.BytesIO()
+        ir3.save_protobuf_file(buf)
+        pm3 = IR_pb2.IR()
+        pm3.ParseFromString(buf.getvalue()[8:])
+        ids3 = {}
+        for m in ir3.modules:
+            for v in m.byte_intervals:
+                for k in v.symbolic_expressions:
+                    ids3[(mapper.nid(v.uuid.bytes), k)] = "?"
+        got3 = protomsg.canon_msg(mapper.canon_from_proto(pm3, ids3))
+        if got3 != want:
+            return {"exc": "ReaderDisagreesWithSchemaMapping", "msg": _first_diff(want, got3)}
+        return NONE
 
     def _do_reload(self, irid, op=None):
         """save + load of a self-contained IR (C01), with the writer and the reader each compared with
